@@ -51,6 +51,9 @@ func NewIntNode(byteSize int, values ...interface{}) ItemNode {
 		case int64:
 			nodeValues = append(nodeValues, value)
 		case uint:
+			if value > math.MaxInt64 {
+				panic("value overflow")
+			}
 			nodeValues = append(nodeValues, int64(value))
 		case uint8:
 			nodeValues = append(nodeValues, int64(value))
